@@ -3,6 +3,7 @@ import PysamlModel.Props.C20
 #print axioms C20.C20_own_key
 #print axioms C20.C20_no_other_thread
 #print axioms C20.C20_verify_verdict
+#print axioms C20.C20_accepted_iff_published
 #print axioms C20.C20_never_crashes
 #print axioms C20.C20_spec_signed
 #print axioms C20.C20_spec_verified
